@@ -65,6 +65,32 @@ def e2e_module(name):
             % (t, t, n, n, n, n))
 
 
+KIND_TEMPLATES = {
+    'seqof': '%s ::= SEQUENCE OF INTEGER',
+    'setof': '%s ::= SET OF BOOLEAN',
+    'integer': '%s ::= INTEGER (0..5)',
+    'boolean': '%s ::= BOOLEAN',
+    'null': '%s ::= NULL',
+    'enumerated': '%s ::= ENUMERATED { aa, bb }',
+    'choice': '%s ::= CHOICE { aa NULL, bb BOOLEAN }',
+    'set': '%s ::= SET { aa NULL }',
+    'bitstring': '%s ::= BIT STRING',
+    'octetstring': '%s ::= OCTET STRING',
+    'ia5': '%s ::= IA5String',
+    'oid': '%s ::= OBJECT IDENTIFIER',
+    'alias': 'Base-t ::= INTEGER\n%s ::= Base-t (0..3)',
+}
+
+
+def kind_module(kind, t):
+    return 'Mk DEFINITIONS AUTOMATIC TAGS ::= BEGIN\n%s\nEND\n' % (KIND_TEMPLATES[kind] % t)
+
+
+def value_module(n):
+    return ('Mv DEFINITIONS AUTOMATIC TAGS ::= BEGIN\nEnu ::= ENUMERATED { %s, yyy }\nCho ::= CHOICE { %s INTEGER, zzz NULL }\n'
+            'Dd ::= SEQUENCE { dd Enu DEFAULT %s, ee Cho DEFAULT %s:7 }\nvv Enu ::= %s\nww Cho ::= %s:5\nEND\n' % (n, n, n, n, n, n))
+
+
 def ident_ann(attrs):
     for a in attrs:
         m = re.search(r'identifier="([^"]*)"', a)
@@ -85,6 +111,55 @@ def judge(ck, cases, results, asn_kw):
                 continue
             dterms.append('(%s, %s, %s, %s, %s)' % (cstr(s), cstr(r['snake']), cstr(r['const']), cstr(r['enum']), cstr(r['title'])))
             didx.append(i)
+        elif c.get('_kind'):
+            kind, t = c['_kind'], c['_t']
+            ck.note_case('k:%s:%s' % (kind, t))
+            ck.count('kind')
+            if 'panic' in r or 'crash' in r:
+                ck.violation('impl-violation', c['sources'][0], impl=r, why='compiler crashed on legal names')
+                continue
+            if not r.get('ok') or 'items' not in r:
+                if t in asn_kw or t.upper() == t:
+                    ck.count('kind-skipped-reserved')
+                    continue
+                ck.violation('impl-violation', c['sources'][0], impl={k: v for k, v in r.items() if k != 'generated'},
+                             why='module with a legal type name rejected or generated code unparsable')
+                continue
+            m = [x for x in r['items'] if x.get('kind') == 'mod'][0]
+            decls = [it for it in m['items'] if it['kind'] in ('struct', 'enum') and it['name'] not in ('BaseT',)
+                     and not it['name'].startswith('Anonymous')]
+            if len(decls) != 1:
+                ck.violation('impl-violation', c['sources'][0], why='expected exactly one declaration for the type',
+                             names=[it.get('name') for it in m['items']], warnings=r.get('warnings'))
+                continue
+            eterms.append('(%s, %s, %s, %s)' % (cn(1), cstr(t), cstr(decls[0]['name']), copt(ident_ann(decls[0]['attrs']), cstr)))
+            eidx.append(i)
+        elif c.get('_value'):
+            n = c['_value']
+            ck.note_case('v:' + n)
+            ck.count('value')
+            if 'panic' in r or 'crash' in r:
+                ck.violation('impl-violation', c['sources'][0], impl=r, why='compiler crashed on legal names')
+                continue
+            if not r.get('ok') or 'items' not in r:
+                ck.violation('impl-violation', c['sources'][0], impl={k: v for k, v in r.items() if k != 'generated'},
+                             why='module with values of legal names rejected or generated code unparsable')
+                continue
+            m = [x for x in r['items'] if x.get('kind') == 'mod'][0]
+            enums = {it['name']: [v['name'] for v in it['variants']] for it in m['items'] if it['kind'] == 'enum'}
+            texts = []
+            for it in m['items']:
+                if it['kind'] in ('const', 'static'):
+                    texts.append(it['expr'])
+                elif it['kind'] == 'fn':
+                    texts += it['body']
+            refs = re.findall(r'\b(Enu|Cho)::([A-Za-z_][A-Za-z0-9_]*)', ' '.join(texts))
+            if len(refs) < 4 and not r.get('warnings'):
+                ck.violation('impl-violation', c['sources'][0], why='value / DEFAULT of an enumerated or choice type not generated', refs=refs)
+            for ty, var in refs:
+                if var not in enums.get(ty, []):
+                    ck.violation('impl-violation', c['sources'][0], why='a value refers to %s::%s, which is not a declared variant (%s)'
+                                 % (ty, var, enums.get(ty)))
         else:
             t, n = c['_m']
             ck.note_case('e:' + n)
@@ -164,6 +239,16 @@ def run(ck):
     for s in e2e:
         t, n, src = e2e_module(s)
         cases.append({'op': 'compile', 'sources': [src], '_m': (t, n)})
+    interesting = kwnames + [s for s in names if '-' in s][:40]
+    ck.rng.shuffle(interesting)
+    kinds = sorted(KIND_TEMPLATES)
+    for idx, s in enumerate(interesting[:(260 if ck.tier == 'quick' else 3000)]):
+        t = s[0].upper() + s[1:]
+        for kind in (kinds if idx < 30 else [kinds[idx % len(kinds)], kinds[(idx * 7 + 3) % len(kinds)]]):
+            cases.append({'op': 'compile', 'sources': [kind_module(kind, t)], '_kind': kind, '_t': t})
+    for s in interesting[:(150 if ck.tier == 'quick' else 2000)]:
+        n = s[0].lower() + s[1:]
+        cases.append({'op': 'compile', 'sources': [value_module(n)], '_value': n})
     ck.sample({'op': 'names', 's': names[len(names) // 2]})
     ck.sample({'asn1': cases[-1]['sources'][0]})
     judge(ck, cases, run_harness(cases), asn_kw)
@@ -178,6 +263,13 @@ def replay(ck, data):
         c = v.get('case')
         if isinstance(c, dict) and c.get('op') == 'names':
             cases.append(c)
+        elif isinstance(c, str) and c.startswith('Mk '):
+            m = re.search(r'\n(?:Base-t ::= INTEGER\n)?(\S+) ::= ', c)
+            kind = next((k for k, tpl in KIND_TEMPLATES.items() if (tpl % m.group(1)) in c), 'integer')
+            cases.append({'op': 'compile', 'sources': [c], '_kind': kind, '_t': m.group(1)})
+        elif isinstance(c, str) and c.startswith('Mv '):
+            m = re.search(r'ENUMERATED \{ (\S+), yyy', c)
+            cases.append({'op': 'compile', 'sources': [c], '_value': m.group(1)})
         elif isinstance(c, str):
             t = c.split(' ', 1)[0]
             m = re.search(r'SEQUENCE \{ (\S+) INTEGER', c)
